@@ -53,12 +53,12 @@ def run(tier, seed, res):
                                            "threads x 1 op from {SET, POLL, GET}, all schedules; datacopy: 2 threads x 1 request from {none, 0, 1, 2} x {sync, deferred} x "
                                            "{unfulfilled, pre-fulfilled root}, all schedules with at most %d preemptions" % pbd)
     collect(res, wr)
-    per = 1200 if quick else 200000
+    per = 1200 if quick else 50000
     jobs = [dict(cmd=[b, "rc"], env={"RC_PARAMS": "seed=%d max_success=%d max_size=100" % (seed * 131 + i, per)}, tag="rc") for i in range(n)]
     wr = core.run_workers(PROP, jobs)
     res.absorb(wr, "rc")
     collect(res, wr)
-    rounds = 60 if quick else 20000
+    rounds = 60 if quick else 4000
     jobs = [dict(cmd=[b, "stress", str(t), str(rounds), str(seed * 17 + t)], tag="stress", timeout=150 if quick else 1800) for t in (2, 4, 16)]
     wr = core.run_workers(PROP, jobs, max_parallel=1)
     res.absorb(wr, "stress")
